@@ -33,3 +33,5 @@ MODULES["C06"] += ["QuillModel.Props.C09Progress"]
 THEOREMS["C05"] += ["Backend.C05_writes_follow_pops", "Backend.C05_write_is_of_popped", "Backend.C05_write_order",
                     "Backend.C05_write_order_at_sink", "Backend.C05_write_order_pairs", "Backend.PA.InvO.closed"]
 MODULES["C05"] += ["QuillModel.Props.C05Write"]
+THEOREMS["C06"] += ["Backend.C06_flush_log_returns_concurrent_total"]
+THEOREMS["C06"] += ["Backend.C06_flush_not_overtaken_grace0", "Backend.C06_flush_log_returns_concurrent_explicit_grace0"]
